@@ -23,7 +23,9 @@
     factor with a complex window: stride 1) / Pin (any factor of act_design,
     any sustain of the geometry, the pinned trials inside the block) /
     Sequential (a factor without a complex window, its preamble a whole
-    number of its sustain groups); combinations
+    number of its sustain groups) / LatinSquare (unsustained factors without a
+    complex window: the rotation counter of the code is the digit vector of
+    the segment number); combinations
     left out of a crossing by Exclude constraints (on a basic level, or on a
     level of a WithinTrial factor of act_design, expanded into the
     combinations of basic levels that make it true) or by a crossed derived
@@ -163,3 +165,13 @@ Example C01_example_nest :
   hd nil (all_valid (code_sem ex_nest)) =
     ((Some 1 :: Some 1 :: Some 0 :: Some 0 :: nil) :: (Some 1 :: Some 0 :: Some 1 :: Some 0 :: nil) :: nil)%nat.
 Proof. exact ex_nest_facts. Qed.
+
+(** ... and by a LatinSquare *)
+Example C01_example_latin :
+  in_f1 ex_latin = true /\ (0 < T ex_latin)%nat /\
+  (exists b, compile ex_latin = COk b /\ b_fresh b = 159%Z) /\
+  length (all_valid (code_sem ex_latin)) = 36%nat /\
+  hd nil (all_valid (code_sem ex_latin)) =
+    ((Some 2 :: Some 1 :: Some 0 :: Some 2 :: Some 1 :: Some 0 :: nil) ::
+     (Some 0 :: Some 1 :: Some 0 :: Some 1 :: Some 0 :: Some 1 :: nil) :: nil)%nat.
+Proof. exact ex_latin_facts. Qed.
